@@ -26,14 +26,19 @@
    Round 7: C16_retry_endcollect; C16_nest_spec / C16_nest (populate prefix, both sources);
      C16_model_meets_spec_populate.  Missing for the full statement: addressing of the rows of
      populate_read / populate_write against z before / after the run, and the projection level.
-   Round 8: model: body action k_ref (an untraced getPayloadRef on the innermost fiber: a point
-     update without a row); flattened ranks are linearised exactly by the harness.  Proofs:
-     C16_populate_position, C16_populate_dest_rows (the (coordinate, position) arguments of the
-     populate_read / populate_write rows of a non-inserting traversal are exactly the oracle's
-     expect_at K_RD / K_WR lists against z before / after).  Missing for the full statement:
-     carrying that through the nest (final z of the run at each point; the inserting traversals
-     are left to the oracle's `appending` guard and need no addressing), the projection level,
-     and the k_ref body action in the proved class.
+   Round 8: flattened ranks are linearised exactly by the harness.  C16_populate_position,
+     C16_populate_dest_rows (the (coordinate, position) arguments of the populate_read /
+     populate_write rows of a non-inserting traversal are the oracle's expect_at K_RD / K_WR lists
+     against z before / after).
+   Round 9: an untraced getPayloadRef is no event at all (repo 51858d5): the model has no body
+     action for it, the harness does the lookups (innermost element, another coordinate of the
+     enclosing fiber, a scratch fiber outside the nest) and the rows must not change.  Oracle:
+     read_covered (an inserting traversal reads every stored element below the last source
+     coordinate, twice when it is shifted).  C16_populate_level_dest_rows,
+     C16_populate_fib_level_dest (expect_at K_RD / K_WR at the level, abstract source / fiber
+     source).  Missing for the full statement: carrying these through the nest (zs = true in
+     spec: the final z of the run at each point), read_covered for inserting traversals, and the
+     projection level.
    NOT proved (checked by the oracle c16_holds on the implementation's files and, as verdict
    bit 4, on the model's files for every generated case): the hypotheses of C16_level_spec for
    `&` levels (yielded elements = lookup intersection, locality of its events) and for `<<`
@@ -158,7 +163,7 @@ Print Assumptions C16_level_spec.
    trees (explicit defaults and empty sub-fibers included), any traces - meets [spec]. *)
 Theorem C16_plain_nest_spec : forall zs n tr zshape nz m lv, forallb plain_level lv = true ->
   forall i pt e z, length pt = i -> labinv i z ->
-  spec zs tr n i lv pt e (fst (run false tr zshape nz m lv i pt e z)).
+  spec zs tr n i lv pt e (fst (run tr zshape nz m lv i pt e z)).
 Proof. exact plain_nest_spec. Qed.
 Print Assumptions C16_plain_nest_spec.
 
@@ -167,7 +172,7 @@ Print Assumptions C16_plain_nest_spec.
    to the reference iteration space with storage positions. *)
 Theorem C16_plain_nest : forall zs n tr zshape nz m lv keys m0 e z,
   forallb plain_level lv = true ->
-  let evs := fst (run false tr zshape nz m lv 0 [] e {| th_z := z; th_lab := lab0 |}) in
+  let evs := fst (run tr zshape nz m lv 0 [] e {| th_z := z; th_lab := lab0 |}) in
   let st' := exec n (init_state keys true m0) evs in
   let d := dr lv [([], e)] in
   m_lo st' = iota d
@@ -207,13 +212,13 @@ Print Assumptions C16_intersect_yields.
    counters of inner ranks reset), so the dynamic labels of `&` are 0 and 1. *)
 Theorem C16_eager_nest_spec : forall zs n tr zshape nz m lv, forallb eager_level lv = true ->
   forall i pt e z, length pt = i -> labinv i z -> env_ok e -> nest_int_ok tr i lv e ->
-  spec zs tr n i lv pt e (fst (run false tr zshape nz m lv i pt e z)).
+  spec zs tr n i lv pt e (fst (run tr zshape nz m lv i pt e z)).
 Proof. exact eager_nest_spec. Qed.
 Print Assumptions C16_eager_nest_spec.
 
 Theorem C16_eager_nest : forall zs n tr zshape nz m lv keys m0 e z,
   forallb eager_level lv = true -> env_ok e -> nest_int_ok tr 0 lv e ->
-  let evs := fst (run false tr zshape nz m lv 0 [] e {| th_z := z; th_lab := lab0 |}) in
+  let evs := fst (run tr zshape nz m lv 0 [] e {| th_z := z; th_lab := lab0 |}) in
   let st' := exec n (init_state keys true m0) evs in
   let d := dr lv [([], e)] in
   m_lo st' = iota d
@@ -242,7 +247,7 @@ Proof. vm_compute. auto. Qed.
    no populate level ([eager_level]: `for` over a compressed or uncompressed fiber, or
    `for .. in x & y`, x <> y, compressed or uncompressed - every non-populate level the model has). *)
 Theorem C16_model_meets_spec_partial : forall c,
-  c16_wf c = true -> c16_region c = 0 -> forallb eager_level (k_levels c) = true -> k_ref c = false ->
+  c16_wf c = true -> c16_region c = 0 -> forallb eager_level (k_levels c) = true ->
   c16_holds c (c16_model c) = true.
 Proof. exact model_meets_spec_eager. Qed.
 Print Assumptions C16_model_meets_spec_partial.
@@ -254,7 +259,7 @@ Example C16_model_meets_spec_partial_nonvacuous :
                             Node [(0, Node [(1, Leaf 3)]); (1, Node [(0, Leaf 1)]); (2, Node [(0, Leaf 4); (1, Leaf 5)])] ];
               k_z := Node []; k_zshape := []; k_skip := 0;
               k_keys := [(0,0,0); (0,1,0); (0,1,1); (1,0,0); (1,3,0); (2,0,0)];
-              k_thresholds := [2; 1000]; k_ref := false |} in
+              k_thresholds := [2; 1000] |} in
   c16_wf c = true /\ c16_region c = 0 /\ forallb eager_level (k_levels c) = true.
 Proof. vm_compute. auto. Qed.
 
@@ -353,13 +358,13 @@ Print Assumptions C16_retry_endcollect.
 Theorem C16_nest_spec : forall n tr zshape m lv, pnest lv = true ->
   forall nz i pt e z, length pt = i -> nz = (i + n_pop lv)%nat -> labinv i z -> zty (n_pop lv) z ->
   env_ok e -> nest_pos_ok tr i lv e ->
-  spec false tr n i lv pt e (fst (run false tr zshape nz m lv i pt e z)).
+  spec false tr n i lv pt e (fst (run tr zshape nz m lv i pt e z)).
 Proof. exact pnest_spec_gen. Qed.
 Print Assumptions C16_nest_spec.
 
 Theorem C16_nest : forall n tr zshape m lv keys m0 e zt,
   pnest lv = true -> depth_ok (n_pop lv) zt = true -> env_ok e -> nest_pos_ok tr 0 lv e ->
-  let evs := fst (run false tr zshape (n_pop lv) m lv 0 [] e {| th_z := Some zt; th_lab := lab0 |}) in
+  let evs := fst (run tr zshape (n_pop lv) m lv 0 [] e {| th_z := Some zt; th_lab := lab0 |}) in
   let st' := exec n (init_state keys true m0) evs in
   let d := dr lv [([], e)] in
   m_lo st' = iota d
@@ -373,7 +378,7 @@ Print Assumptions C16_nest.
    populate_write) trace. *)
 Theorem C16_model_meets_spec_populate : forall c,
   c16_wf c = true -> c16_region c = 0 -> pnest (k_levels c) = true ->
-  forallb (fun k => negb (is_zside (key_kind k))) (k_keys c) = true -> k_ref c = false ->
+  forallb (fun k => negb (is_zside (key_kind k))) (k_keys c) = true ->
   c16_holds c (c16_model c) = true.
 Proof. exact model_meets_spec_pnest. Qed.
 Print Assumptions C16_model_meets_spec_populate.
@@ -385,7 +390,7 @@ Example C16_model_meets_spec_populate_nonvacuous :
                             Node [(0, Node [(1, Leaf 3)]); (1, Node [(0, Leaf 1)]); (2, Node [(0, Leaf 4); (1, Leaf 5)])] ];
               k_z := Node [(1, Leaf 7); (3, Leaf 2)]; k_zshape := [4]; k_skip := 0;
               k_keys := [(0,0,0); (0,1,2); (0,1,3); (0,2,1); (1,0,0)];
-              k_thresholds := [2; 1000]; k_ref := false |} in
+              k_thresholds := [2; 1000] |} in
   c16_wf c = true /\ c16_region c = 0 /\ pnest (k_levels c) = true
   /\ forallb (fun k => negb (is_zside (key_kind k))) (k_keys c) = true.
 Proof. vm_compute. auto. Qed.
@@ -427,6 +432,45 @@ Theorem C16_populate_dest_rows : forall r la lb rt wt bt zl cm ip (body : body_t
 Proof. exact pop_loop_noins_init. Qed.
 Print Assumptions C16_populate_dest_rows.
 
+(* C16_populate_level_dest_rows: a populate level over an abstract source stream whose elements are
+   the reference elements of the level in ascending order: when the traversal does not insert
+   (Check.appending), the rows of populate_read / populate_write below point pt are the oracle's
+   expect_at lists against the destination fiber before (zes) and after (zf) the traversal. *)
+Theorem C16_populate_level_dest_rows : forall (L : level) e els zes pt r la lb rt wt bt zl ip (body : body_t) ls oe isp,
+  l_pop L = true ->
+  map el_ce els = ref_elems L e ->
+  match map fst (ref_elems L e) with [] => True | c0 :: cs => inc_from c0 cs end ->
+  Forall (fun el => kuses K_RD la (fst el) = []) els ->
+  ssorted_f zes -> appending L zes e = true ->
+  let st := {| p_z := zes; p_apos := 0; p_ins := false; p_oldend := oe; p_toins := []; p_isp := isp |} in
+  let res := pop_loop r la lb rt wt bt zl (negb (l_zufmt L)) ip body els 0 st ls in
+  let zf := p_z (fst (snd res)) in
+  let rows := map (fun cp : Z * Z => addr pt (fst cp) (Some (snd cp))) in
+  ssorted_f zf
+  /\ (rt = true -> rows (flat_map (fun it => kuses K_RD la (it_pre it)) (fst res))
+                   = expect_at L false K_RD 0 zes zf pt e)
+  /\ (wt = true -> rows (flat_map (fun it => suses K_WR la (it_post it)) (fst res))
+                   = expect_at L false K_WR 0 zes zf pt e).
+Proof. exact pop_level_dest_rows. Qed.
+Print Assumptions C16_populate_level_dest_rows.
+
+(* C16_populate_fib_level_dest: the instance for  z_i << x_i  as run_level runs it (sorted inputs). *)
+Theorem C16_populate_fib_level_dest : forall tr u sh zu x e zes pt r la' lb' la lb rt wt bt zl ip (body : body_t) ls oe isp,
+  let L := {| l_pop := true; l_src := SFib x; l_ufmt := u; l_zufmt := zu; l_proj := None; l_shape := sh |} in
+  env_ok e -> ssorted_f zes -> appending L zes e = true ->
+  let els := fst (src_stream tr u sh r la' lb' (SFib x) e) in
+  let st := {| p_z := zes; p_apos := 0; p_ins := false; p_oldend := oe; p_toins := []; p_isp := isp |} in
+  let res := pop_loop r la lb rt wt bt zl (negb zu) ip body els 0 st ls in
+  let zf := p_z (fst (snd res)) in
+  let rows := map (fun cp : Z * Z => addr pt (fst cp) (Some (snd cp))) in
+  ssorted_f zf
+  /\ (rt = true -> rows (flat_map (fun it => kuses K_RD la (it_pre it)) (fst res))
+                   = expect_at L false K_RD 0 zes zf pt e)
+  /\ (wt = true -> rows (flat_map (fun it => suses K_WR la (it_post it)) (fst res))
+                   = expect_at L false K_WR 0 zes zf pt e).
+Proof. exact pop_fib_level_dest. Qed.
+Print Assumptions C16_populate_fib_level_dest.
+
 (* C16_model_meets_spec, full statement (NOT proved):
      forall c, c16_wf c = true -> c16_region c = 0 -> c16_holds c (c16_model c) = true
    i.e. additionally to the two theorems above, for every trace of the model
@@ -447,7 +491,7 @@ Definition c16_sample : c16_case :=
      k_zshape := [4];
      k_skip := 0;
      k_keys := [(0,0,0); (0,1,2); (0,1,3); (0,2,1); (0,3,0); (0,4,0); (1,0,0)];
-     k_thresholds := [2; 3; 1000]; k_ref := false |}.
+     k_thresholds := [2; 3; 1000] |}.
 
 Example C16_model_meets_spec_sample :
   c16_wf c16_sample = true /\ c16_region c16_sample = 0
@@ -461,7 +505,7 @@ Definition c16_witness : c16_case :=
   {| k_levels := [ {| l_pop := false; l_src := SAnd 0 1; l_ufmt := false; l_zufmt := false; l_proj := None; l_shape := 4 |} ];
      k_inputs := [ Node [(1, Leaf 7)]; Node [(0, Leaf 0); (1, Leaf 7)] ];
      k_z := Node []; k_zshape := []; k_skip := 0;
-     k_keys := [(0, 1, 1)]; k_thresholds := [4]; k_ref := false |}.
+     k_keys := [(0, 1, 1)]; k_thresholds := [4] |}.
 
 Theorem C16_positions_refuted : exists c,
   c16_wf c = true /\ c16_region c = 1 /\ c16_holds c (c16_model c) = false.
